@@ -116,7 +116,7 @@ func genPoolCase(t *rapid.T) poolCase {
 		switch op.K {
 		case "use":
 			op.N = rapid.SampledFrom([]int{0, 1, 50, 56, 57, 300, 1100, 70000}).Draw(t, "n")
-			op.Read = rapid.SampledFrom([]string{"all", "all", "all", "part", "none"}).Draw(t, "read")
+			op.Read = rapid.SampledFrom([]string{"all", "all", "all", "part", "none", "untouched"}).Draw(t, "read")
 		case "hog":
 			op.Keep = []int{rapid.IntRange(0, 2).Draw(t, "k0"), rapid.IntRange(0, 2).Draw(t, "k1"), rapid.IntRange(0, 2).Draw(t, "k2"), rapid.IntRange(0, 2).Draw(t, "k3")}
 		}
@@ -213,6 +213,21 @@ func poolRun(c poolCase, r *runCtx) {
 				return
 			}
 			h.lastReq = nonce
+			if op.Read == "untouched" {
+				// the caller never touches the reader: the response has arrived (it sits in the stream's pending list) and stays unread
+				st := h.st
+				if !waitUntil(e2Stall, func() bool {
+					st.pendingData.Lock()
+					defer st.pendingData.Unlock()
+					return len(st.pendingData.unread) > 0 || !st.IsOpen()
+				}) {
+					r.Violf("op %d: response of %d bytes did not arrive within %v", oi, len(req), e2Stall)
+					return
+				}
+				h.dirty = true
+				r.Label("response-left-untouched")
+				continue
+			}
 			h.st.SetReadDeadline(time.Now().Add(e2Stall))
 			// the whole response is awaited first (so that whatever stays unread is unread *locally*), then consumed as generated
 			all, err := h.st.BufferReader().Peek(len(req))
